@@ -38,7 +38,7 @@ TIERS = {
     "C13": {"quick": (10000, 240), "thorough": (400000, 3000)},
     "C15": {"quick": (2000, 240), "thorough": (100000, 3000)},
     "C16": {"quick": (12000, 240), "thorough": (600000, 3000)},
-    "C14": {"quick": (1000, 300), "thorough": (100000, 3600)},
+    "C14": {"quick": (2500, 300), "thorough": (100000, 3600)},
 }
 
 
